@@ -53,7 +53,15 @@ type Mini struct {
 	Index func(m *Mini, x *ast.IndexExpr) (MV, bool)
 	// Range gives the (key, value) of the single symbolic iteration of a range loop.
 	Range func(m *Mini, rs *ast.RangeStmt) (k, v MV, ok bool)
-	steps int
+	// Unroll (optional, consulted before Range) unrolls a range loop over a finite abstract sequence:
+	// n iterations, item(i) yields the key and value of iteration i (and lets the rule note which
+	// abstract element is current). break/continue/return have their Go meaning; after the last
+	// iteration control continues behind the loop.
+	Unroll func(m *Mini, rs *ast.RangeStmt) (n int, item func(i int) (k, v MV), ok bool)
+	// IndexV (optional, consulted before Index) gives meaning to x[i] from the folded base and index
+	// (either may be an opaque symbol when it is outside the abstraction).
+	IndexV func(m *Mini, x *ast.IndexExpr, base, idx MV) (MV, bool)
+	steps  int
 	depth int
 }
 
@@ -344,6 +352,40 @@ func (m *Mini) stmt(s ast.Stmt, env *menv) (miniCtl, []MV) {
 		}
 		return ctl, r
 	case *ast.RangeStmt:
+		if m.Unroll != nil {
+			if n, item, ok := m.Unroll(m, s); ok {
+				for i := 0; i < n; i++ {
+					k, v := item(i)
+					scope := &menv{vars: map[types.Object]MV{}, parent: env}
+					for j, e := range []ast.Expr{s.Key, s.Value} {
+						id, isID := e.(*ast.Ident)
+						if e == nil || (isID && id.Name == "_") {
+							continue
+						}
+						if !isID {
+							m.fail(s, "range loop assigns to a non-identifier")
+						}
+						val := k
+						if j == 1 {
+							val = v
+						}
+						if o := m.Info.Defs[id]; o != nil {
+							scope.def(o, val)
+						} else if o := m.Info.Uses[id]; o != nil {
+							env.set(o, val)
+						}
+					}
+					ctl, r := m.block(s.Body.List, scope)
+					switch ctl {
+					case ctlBreak:
+						return ctlNormal, nil
+					case ctlReturn, ctlPanic:
+						return ctl, r
+					}
+				}
+				return ctlNormal, nil
+			}
+		}
 		if m.Range == nil {
 			m.fail(s, "range loop outside the abstraction")
 		}
@@ -659,6 +701,11 @@ func (m *Mini) expr(x ast.Expr, env *menv) MV {
 		v := m.expr(x.X, env)
 		return v
 	case *ast.IndexExpr:
+		if m.IndexV != nil {
+			if v, ok := m.IndexV(m, x, m.tryExpr(x.X, env), m.tryExpr(x.Index, env)); ok {
+				return v
+			}
+		}
 		if m.Index != nil {
 			if v, ok := m.Index(m, x); ok {
 				return v
@@ -716,7 +763,7 @@ func (m *Mini) call(call *ast.CallExpr, env *menv) []MV {
 	if fn != nil {
 		if fd := m.P.Decl(fn); fd != nil && fd.Body != nil && m.depth < 8 {
 			pk := m.P.PkgOf(fn)
-			sub := &Mini{P: m.P, Info: pk.TypesInfo, Call: m.Call, Sel: m.Sel, Range: m.Range, Index: m.Index, depth: m.depth + 1}
+			sub := &Mini{P: m.P, Info: pk.TypesInfo, Call: m.Call, Sel: m.Sel, Range: m.Range, Index: m.Index, Unroll: m.Unroll, IndexV: m.IndexV, depth: m.depth + 1}
 			bind := map[types.Object]MV{}
 			if fd.Recv != nil && len(fd.Recv.List) > 0 && len(fd.Recv.List[0].Names) > 0 {
 				bind[pk.TypesInfo.Defs[fd.Recv.List[0].Names[0]]] = recv
